@@ -668,6 +668,10 @@ pub enum Call {
     Add(usize, usize, usize), // state, label index, target
     Default(usize, usize),
     Final(usize),
+    /// an intermediate build() whose result is dropped: the specification is what the caller said, before and after
+    Build,
+    /// an intermediate build_unchecked() (only generated when the specification so far is complete and conflict-free)
+    BuildUnchecked,
 }
 
 fn calls_to_json(init: usize, calls: &[Call]) -> Value {
@@ -677,6 +681,8 @@ fn calls_to_json(init: usize, calls: &[Call]) -> Value {
             Call::Add(q, l, t) => json!(["add", q, l, t]),
             Call::Default(q, t) => json!(["default", q, t]),
             Call::Final(q) => json!(["final", q]),
+            Call::Build => json!(["build"]),
+            Call::BuildUnchecked => json!(["build_unchecked"]),
         })
         .collect();
     json!({"engine": "bld", "init": init, "calls": v})
@@ -690,6 +696,8 @@ fn calls_from_json(v: &Value) -> (usize, Vec<Call>) {
             match c[0].as_str().unwrap_or("") {
                 "add" => calls.push(Call::Add(g(1), g(2), g(3))),
                 "default" => calls.push(Call::Default(g(1), g(2))),
+                "build" => calls.push(Call::Build),
+                "build_unchecked" => calls.push(Call::BuildUnchecked),
                 _ => calls.push(Call::Final(g(1))),
             }
         }
@@ -707,6 +715,8 @@ fn show_calls(init: usize, calls: &[Call]) -> String {
             }
             Call::Default(q, t) => s.push_str(&format!(".set_default_successor({}, {})", q, t)),
             Call::Final(q) => s.push_str(&format!(".mark_final({})", q)),
+            Call::Build => s.push_str(".build()"),
+            Call::BuildUnchecked => s.push_str(".build_unchecked()"),
         }
     }
     s
@@ -740,6 +750,7 @@ fn bld_case(init: usize, calls: &[Call], rep: &mut Report) -> Option<String> {
                 mention(&mut keys, *q);
                 finals.insert(*q);
             }
+            Call::Build | Call::BuildUnchecked => {}
         }
     }
     let (mut conflict, mut uncovered, mut overlap, mut needless) = (false, false, false, false);
@@ -786,6 +797,12 @@ fn bld_case(init: usize, calls: &[Call], rep: &mut Report) -> Option<String> {
                 }
                 Call::Final(q) => {
                     b.mark_final(q);
+                }
+                Call::Build => {
+                    let _ = b.build();
+                }
+                Call::BuildUnchecked => {
+                    let _ = b.build_unchecked();
                 }
             }
         }
@@ -913,7 +930,7 @@ impl Engine for BldEngine {
         let n = state_specs(ns, 3).len();
         Meta {
             level: "model_checking",
-            rule: "builder call sequences: per state every ordered sequence of <= 3 add_transition(label, target) calls (labels = the 6 unions of consecutive blocks of [0,9] [10,19] [20,MAX]), a default in {none} + targets declared before or after the transitions (or declared twice), final marks; the model records for every state and block the set of targets assigned: conflict or uncovered => build() must fail; complete, conflict-free, defaults only where needed => must succeed; otherwise either; whenever Ok the automaton must equal the specification up to a renaming fixing the initial state (every successor on 9 probe characters, final flags, counts); non-trivial = specifications accepted by build()".into(),
+            rule: "builder call sequences: per state every ordered sequence of <= 3 add_transition(label, target) calls (labels = the 6 unions of consecutive blocks of [0,9] [10,19] [20,MAX]), a default in {none} + targets declared before or after the transitions (or declared twice), final marks, and an intermediate build() / build_unchecked() inserted at every position of a share of the sequences (building must not change what was specified); the model records for every state and block the set of targets assigned: conflict or uncovered => build() must fail; complete, conflict-free, defaults only where needed => must succeed; otherwise either; whenever Ok the automaton must equal the specification up to a renaming fixing the initial state (every successor on 9 probe characters, final flags, counts); non-trivial = specifications accepted by build()".into(),
             assumptions: vec!["a needless default (declared although the transitions already cover the alphabet) is not classified by the statement: both outcomes are accepted".into()],
             exhaustive: true,
             space: format!("{} states; state 0 ranges over all {} per-state specifications, the other state(s) over every {}th{} one; final sets: none, {{last}}, all", ns, n, s1, if ns == 3 { format!(" / {}th", s2) } else { String::new() }),
@@ -958,6 +975,68 @@ impl Engine for BldEngine {
                         if rep.samples.len() < 3 && calls.len() == 6 && fmode == 1 {
                             let sj = json!({"calls": show_calls(0, &calls)});
                             rep.sample(|| sj);
+                        }
+                        // the same calls with a build() in the middle: building must not change what was specified
+                        if fmode == 0 && (i0 / BLD_NB) % 5 == 0 && calls.len() >= 2 {
+                            for pos in 1..calls.len() {
+                                let mut c2 = calls.clone();
+                                c2.insert(pos, Call::Build);
+                                rep.inc("evaluations");
+                                rep.inc("sequences_with_intermediate_build");
+                                if let Some(m) = bld_case(0, &c2, rep) {
+                                    rep.violation("C13", "bld", calls_to_json(0, &c2), m);
+                                }
+                            }
+                        }
+                    }
+                }
+            }
+        }
+        // complete conflict-free prefixes followed by build_unchecked(), then further calls
+        if batch == 1 {
+            let complete: Vec<&StateSpec> = specs.iter().filter(|s| s.trans.len() == 2 && s.dflt.is_some() && !s.first && s.redeclare.is_none()).step_by(3).collect();
+            let tails: Vec<&StateSpec> = specs.iter().filter(|s| s.trans.len() <= 1).collect();
+            for a in complete.iter().take(60) {
+                for b in complete.iter().take(60).step_by(7) {
+                    // prefix: states 0 and 1 (and 2) fully specified without overlaps?
+                    let mut pre = vec![];
+                    emit(0, a, &mut pre);
+                    emit(1, b, &mut pre);
+                    if ns == 3 {
+                        emit(2, b, &mut pre);
+                    }
+                    let mut probe = Report::new();
+                    // only valid prefixes may be passed to build_unchecked (it panics otherwise, as documented)
+                    let valid = {
+                        let mut ok = true;
+                        for sp in [a, b] {
+                            for bk in 0..3 {
+                                let n = sp.trans.iter().filter(|&&(l, _)| LABELS[l].0 <= bk && bk <= LABELS[l].1).count();
+                                if n > 1 {
+                                    ok = false;
+                                }
+                            }
+                            let all_cov = (0..3).all(|bk| sp.trans.iter().any(|&(l, _)| LABELS[l].0 <= bk && bk <= LABELS[l].1));
+                            if all_cov {
+                                ok = false; // a needless default is left alone here
+                            }
+                        }
+                        ok
+                    };
+                    if !valid {
+                        continue;
+                    }
+                    let _ = &mut probe;
+                    for t in &tails {
+                        for mid in [Call::BuildUnchecked, Call::Build] {
+                            let mut calls = pre.clone();
+                            calls.push(mid);
+                            emit(0, t, &mut calls);
+                            rep.inc("evaluations");
+                            rep.inc("sequences_with_intermediate_build");
+                            if let Some(m) = bld_case(0, &calls, rep) {
+                                rep.violation("C13", "bld", calls_to_json(0, &calls), m);
+                            }
                         }
                     }
                 }
